@@ -566,6 +566,7 @@ class BaseConnector:
                         waiters.append(closed)
 
             for proto in self._acquired:
+                transport = proto.transport
                 if (
                     abort_ssl
                     and proto.transport
@@ -574,6 +575,11 @@ class BaseConnector:
                     proto.abort()
                 else:
                     proto.close()
+                    if transport is not None and transport.get_write_buffer_size():
+                        # A graceful close waits for the unsent request data to
+                        # be flushed, which never happens if the peer stopped
+                        # reading.
+                        transport.abort()
                 if closed := proto.closed:
                     waiters.append(closed)
 
